@@ -95,6 +95,16 @@ CHECKS = {
         technique="TLA+ e-graph model (EGraph.tla: class values by least fixpoint, ClassSound; AddNode/Merge/Rebuild model-checked in EGraphMC.tla with a negative control) evaluated by TLC on e-graph snapshots of the real pipeline; source vs extracted program executed by TLC under Machine.tla",
         text="Generated single-block pure arith functions over i8/i32 run through the real eqsat-create-eclasses, apply-eqsat-pdl-interp (seven sound PDL rule sets converted by the repository's own PDL->pdl_interp->eqsat_pdl_interp passes, 1-5 iterations), eqsat-add-costs and eqsat-extract; the IR after each stage is projected to an e-graph and TLC checks on every input tuple that every class is sound and the returned classes keep the source's values; TLC executes source and extracted program on the same inputs; without rules the round trip must preserve results.",
         note="Trusted: BV.tla/Machine.tla semantics; the e-graph projection (harness/drivers/c28.py). apply-eqsat-pdl itself needs mlir-opt and cannot run offline. One defect repaired (falsy constant attribute constraints), one open finding (extraction order)."),
+    "C17": dict(
+        category="exploration", design_ref="DESIGN.md §3.3, §4 C17",
+        technique="TLA+ pass-contract state machine (PassContract.tla: ApplyOk must re-establish validity, ApplyRaised is reported failure) whose post-state predicate - verify flag, C01 pointer-walk predicate of IRProj.tla, no erased/detached operand, no dangling successor, operands defined in an enclosing region, printed form re-parses - is evaluated by TLC on recorded histories of real pass runs",
+        text="Every registered pass is applied to corpus chunks: the RUN-line pipelines of its own filecheck inputs pass by pass, and the cross product pass x foreign chunk with default options and option sets seen in RUN lines (thorough: all 440k combinations; quick: a seeded sample of 20000), schedule_space instances, and generated func/arith/scf/cf programs through random pipelines of 1-3 passes. Each successful application is an event with verify()/re-parse outcome and (for changed modules <= 60 ops) the pointer-walk projection; TLC accepts or rejects the history.",
+        note="Trusted: IRProj/PassContract predicates; projection; 'parses back' decided on the generic format (custom-format-only failures are divergences, C05 is not applicable). Exceptions are reported failure; 30 s timeouts are divergences. 35 (pass, clause) defect classes of the unchanged tree are listed as open findings with their diagnostics."),
+    "C27": dict(
+        category="exploration", design_ref="DESIGN.md §4 C27",
+        technique="TLA+ semantics of PDL patterns (PDLMatch.tla: match relation with shared variables and result-of constraints, rewrite step; TLC explores every application order to the fixpoints) used by TLC to judge the payloads produced by the two real paths",
+        text="Generated single-root PDL patterns (nested result-of producers incl. diamonds, shared value/attribute/type variables, constant attributes incl. falsy values, typed operands; erase / replace-with-operand / replace-with-new-op) are applied to generated payloads (instantiations of the pattern with one perturbation each plus noise) by apply-pdl and by convert-pdl-to-pdl-interp + apply-pdl-interp; TLC decides that both results are equal and diagnoses against the model's fixpoints which path deviates.",
+        note="Trusted: PDLMatch.tla as PDL's meaning (only needed for diagnosis/coverage; the verdict is the equality of the two real results); canonical encoding of payloads. Native constraints, variadic operand/result groups and multi-pattern modules are not generated. Three defects repaired, three open findings."),
     "C19": dict(
         category="exploration", design_ref="DESIGN.md §3.7, §4 C19",
         technique="TLA+ register-file execution of allocated blocks (RegAlloc.tla: the register file remembers which value each register holds) evaluated by TLC on the assignments produced by the real allocators",
